@@ -350,14 +350,24 @@ def Act.answered : Act → Bool
   | .finish o _ => dispatchRequest o != .propagate
   | _ => true
 
-/-- `_dispatch_request` answers whatever happens in its `try:` suite: no outcome class makes an exception
-other than EOFError leave it -/
-theorem dispatch_never_propagates (o : Outcome) : dispatchRequest o ≠ .propagate := by
-  cases o <;> decide
+/-- `_dispatch_request` answers whatever happens in its `try:` suite — any `BaseException` included — except
+the one case the configuration asks to propagate locally -/
+theorem dispatch_never_propagates (o : Outcome) (h : o ≠ .raiseLocal) : dispatchRequest o ≠ .propagate := by
+  cases o <;> first | decide | exact absurd rfl h
 
-theorem Act.answered_all (a : Act) : a.answered = true := by
+theorem dispatch_raiseLocal : dispatchRequest .raiseLocal = .propagate := by decide
+
+/-- no handler raises SystemExit / KeyboardInterrupt on a side configured to propagate it locally -/
+def Act.notLocal : Act → Bool
+  | .finish .raiseLocal _ => false
+  | _ => true
+
+theorem Act.answered_of_notLocal (a : Act) (h : a.notLocal = true) : a.answered = true := by
   cases a with
-  | finish o v => simpa [Act.answered] using dispatch_never_propagates o
+  | finish o v =>
+    have ho : o ≠ .raiseLocal := by
+      intro he; subst he; simp [Act.notLocal] at h
+    simpa [Act.answered] using dispatch_never_propagates o ho
   | _ => rfl
 
 /-- nobody has died and no request was abandoned -/
